@@ -249,8 +249,8 @@ def analyse(h: History):
                 rec[cur[tid]]['commit_t'] = tm
             elif k == 'onend-ret':
                 rec[cur[tid]]['ret_t'] = tm
-            elif k in ('lock', 'relock', 'wait', 'twait', 'join', 'trylock'):
-                blocking.append((tid, ' '.join(t)))
+            elif k in ('lock', 'relock', 'wait', 'twait', 'join', 'trylock', 'sleep', 'yield'):
+                blocking.append((tid, ' '.join(t)))     # a producer that locks, waits, sleeps or yields is waiting for somebody
         elif role == 'W':
             if k == 'export-begin':
                 ids = [] if t[2] == '-' else [(-1 if x == 'null' else int(x[1:])) for x in t[2].split('.')]
